@@ -213,10 +213,11 @@ pub fn record(mode: &str, seed: u64, n: usize, out: &mut Out) {
             for i in 0..n {
                 let big = if i % 50 == 49 { 3000 } else if i % 10 == 9 { 300 } else { 30 };
                 let max_args = if i % 97 == 96 { 255 } else if i % 7 == 6 { 12 } else { 4 };
-                let m = gen::message(&mut r, &MsgOpts { storage: None, big, max_args });
+                let m = if i % 60 == 31 { gen::boundary_message(&mut r, None) } else { gen::message(&mut r, &MsgOpts { storage: None, big, max_args }) };
                 let sh = m.storage_header.is_some();
                 let b = m.as_bytes();
                 let mut sfx = suffixes(&mut r, sh);
+                if b.len() > 20000 { sfx.truncate(3); }
                 if i % 40 == 7 {
                     // trailing data that brings the buffer to a multiple of 64 KiB (+-1) and beyond
                     let o = if sh { 16 } else { 0 };
@@ -232,10 +233,15 @@ pub fn record(mode: &str, seed: u64, n: usize, out: &mut Out) {
         "mut" => {
             for i in 0..n {
                 let big = if i % 40 == 39 { 1000 } else { 24 };
-                let m = gen::message(&mut r, &MsgOpts { storage: None, big, max_args: 3 });
+                let m = if i % 150 == 77 { gen::boundary_message(&mut r, None) } else { gen::message(&mut r, &MsgOpts { storage: None, big, max_args: 3 }) };
                 let sh = m.storage_header.is_some();
                 let b = m.as_bytes();
                 out.emit(json!({"op": "enc", "m": proj::message(&m), "bytes": proj::bytes(&b)}), true);
+                if b.len() > 20000 {
+                    out.calls += 1;
+                    out.emit(parse_event(&b, None, sh), true);
+                    continue;
+                }
                 for _ in 0..3 {
                     let mut x = gen::mutate(&mut r, &b, sh);
                     if r.one_in(4) { x = gen::mutate(&mut r, &x, sh); }
@@ -317,10 +323,14 @@ pub fn record(mode: &str, seed: u64, n: usize, out: &mut Out) {
         "stable" => {
             for i in 0..n {
                 let big = if i % 40 == 39 { 1000 } else { 24 };
-                let m = gen::message(&mut r, &MsgOpts { storage: None, big, max_args: 3 });
+                let m = if i % 120 == 59 { gen::boundary_message(&mut r, None) } else { gen::message(&mut r, &MsgOpts { storage: None, big, max_args: 3 }) };
                 let sh = m.storage_header.is_some();
                 let b = m.as_bytes();
                 let mut cands = vec![(b.clone(), sh)];
+                if b.len() > 20000 {
+                    if let Some(pm) = item_of(&b, sh) { out.calls += 4; out.emit(stable_event(&pm, sh), true); }
+                    continue;
+                }
                 for _ in 0..6 {
                     let mut x = gen::mutate(&mut r, &b, sh);
                     if r.one_in(3) { x = gen::mutate(&mut r, &x, sh); }
